@@ -34,9 +34,29 @@ def bootOp (j : Json) : R Json := do
     if m.needsV && commonMask rows then
       ofList (ofOpt ofFloat) (expand mask (poolW m (vFor m o.nC mask) (rows.map present)))
     else Json.null
+  let complete := mask.all id && commonMask rows
+  -- round 3: the bounds through the code path `compare` really takes for complete RDMs (linear-CKA
+  -- shortcut for the whitened measures), and the group-weighted pool with its score
+  let fast : Json :=
+    if complete then
+      let p := bootNoiseCeilingG (poolD m) (simFast o.nC m) (rows.map present) o
+      obj [("lower", ofFloat p.1), ("upper", ofFloat p.2)]
+    else Json.null
+  let wp : Json :=
+    match m with
+    | .cosine | .corr =>
+      if commonMask rows then
+        let d := rows.map present
+        let f : List Float → Float → Float := if m == .cosine then cosF else corrF
+        let w := poolWeighted f (fun j => groupWeight o j) d
+        obj [("pool", ofList (ofOpt ofFloat) (expand mask w)),
+             ("score", ofFloat (candidateScore (simV m []) d o w))]
+      else Json.null
+    | _ => Json.null
   match bootNoiseCeilingO m o rows with
   | some p => pure (obj [("lower", ofFloat p.1), ("upper", ofFloat p.2),
-      ("pool", ofList (ofOpt ofFloat) pool), ("poolw", poolw), ("folds", ofNat (looFolds o).length)])
+      ("pool", ofList (ofOpt ofFloat) pool), ("poolw", poolw), ("fast", fast), ("wpool", wp),
+      ("folds", ofNat (looFolds o).length)])
   | none => pure (obj [("exc", Json.str "ValueError"), ("pool", ofList (ofOpt ofFloat) pool)])
 
 def asVals (j : Json) : R (Option (List Nat)) := asOpt (asList asNat) j
